@@ -171,9 +171,9 @@ func GenWatchWorld(ch *Choices, thorough bool) *WatchWorld {
 			}
 		}
 	}
-	max := 4
+	max := 6
 	if thorough {
-		max = 6
+		max = 9
 	}
 	nh := ch.Range(1, max, "n-events")
 	for i := 0; i < nh; i++ {
